@@ -1,7 +1,7 @@
 #!/bin/sh
 # run every claimed check (quick by default) 4 at a time; logs under /var/tmp/verif-runall/
 TIER="${1:-quick}"
-OUT=/var/tmp/verif-runall
+OUT=${VERIF_RUNALL_OUT:-/var/tmp/verif-runall}
 mkdir -p $OUT
 cd "$(dirname "$0")/.."
 /venv/bin/python -c "import json; print('\n'.join(c['property_id'] for c in json.load(open('MANIFEST.json'))['checks']))" | \
